@@ -500,8 +500,8 @@ def run(ctx):
                          funiq, lambda b: {"case": funiq[b], "profiles": ctx.extra["profiles"]}, per=4000)
     uniq = list(dict.fromkeys(icases))
     ctx.count("invoke-cases-distinct", len(uniq))
-    if not ctx.thorough and len(uniq) > 20000:
-        uniq = ctx.rng.sample(uniq, 20000)      # the oracle judged every call; the model comparison is sampled
+    if not ctx.thorough and len(uniq) > 12000:
+        uniq = ctx.rng.sample(uniq, 12000)      # the oracle judged every call; the model comparison is sampled
     c01.run_cases_in_coq(ctx, "invoke", HEADER, "nat * list nat * list proto * iface * string * bool * callres", "check_real_invoke",
                          uniq, lambda b: {"case": uniq[b], "profiles": ctx.extra["profiles"]}, per=4000)
     ctx.note("real objects compared %.1fs" % (time.time() - ctx.t0))
